@@ -505,6 +505,10 @@ class Sym:
 
     __hash__ = None
 
+    def __bool__(s):
+        # truthiness of a number: x != 0 (e.g. `value or default`)
+        return Ctx.cur.branch(s.e != 0)
+
     # -- transcendental
     def sqrt(s):
         c = Ctx.cur
